@@ -36,7 +36,7 @@ FIXED_HASHLIB = sorted(a for a in hashlib.algorithms_available
 THRESH = [65534, 65535, 65536, 65537, 65538, 1048574, 1048575, 1048576,
           1048577, 1048578, 131072, 2 * 1048576 + 3]
 APIS = ['hash_file', 'hash_file_read1', 'hash_path', 'metadata', 'verify',
-        'update', 'cli', 'unsupported']
+        'update', 'cli', 'cli-stdin', 'unsupported']
 
 
 def generate(rng, tier, idx):
@@ -63,6 +63,32 @@ def generate(rng, tier, idx):
     if n > 70000 and sc['chunks'] in ('tiny', 1, 3):
         sc['chunks'] = 'mixed'
     return sc
+
+
+class ShortRaw(io.RawIOBase):
+    """raw stream (a pipe on stdin) that hands out short chunks"""
+
+    def __init__(self, data, key):
+        super().__init__()
+        self.data = data
+        self.pos = 0
+        self.key = key
+        self.n = 0
+        self.short = 0
+
+    def readable(self):
+        return True
+
+    def readinto(self, b):
+        self.n += 1
+        v = int.from_bytes(_h(self.key, 'raw', self.n)[:4], 'big')
+        lim = max(1, min(len(b), (1, 3, 100, 4096, 65535, 65536, len(b))[v % 7]))
+        if lim < len(b) and self.pos + lim < len(self.data):
+            self.short += 1
+        chunk = self.data[self.pos:self.pos + lim]
+        b[:len(chunk)] = chunk
+        self.pos += len(chunk)
+        return len(chunk)
 
 
 class Read1Reader:
@@ -210,6 +236,19 @@ def execute(sc):
                       and dict(zip(line[3::2], line[4::2])) == exp)
                 if not ok:
                     violations.append(viol('hash.cli', 'gemato hash printed %r (rc %r %s)' % (res['out'][:300], res.get('rc'), res.get('name'))))
+            elif api == 'cli-stdin':
+                raw = ShortRaw(content, sc['order_key'])
+                stdin = io.TextIOWrapper(io.BufferedReader(raw, 8192), encoding='latin-1')
+                res = run_cli(['hash', '-H', ' '.join(sc['hashes']), '-'], stdin=stdin)
+                extra_short = raw.short
+                exp = expected(content, sc['hashes'])
+                line = res['out'].strip().split()
+                ok = (res['kind'] == 'ok' and len(line) == 3 + 2 * len(exp)
+                      and line[0] == 'STDIN' and line[2] == str(n)
+                      and dict(zip(line[3::2], line[4::2])) == exp)
+                if not ok:
+                    violations.append(viol('hash.cli', 'gemato hash - printed %r (rc %r %s) for %d bytes on stdin' % (
+                        res['out'][:300], res.get('rc'), res.get('name'), n), sig='stdin'))
             elif api == 'unsupported':
                 name = sc['bad_name']
                 e = gemato.manifest.ManifestEntryDATA('f', n, {name: '00'})
